@@ -2,6 +2,7 @@ package c08
 
 import (
 	"bytes"
+	"compress/gzip"
 	"fmt"
 	"net/http"
 	"net/textproto"
@@ -32,7 +33,10 @@ type Case struct {
 	RespHeaders []origin.HV `json:"resp_headers"`
 	RespBodyLen int         `json:"resp_body_len"`
 	RespChunked bool        `json:"resp_chunked"`
-	Deliveries  int         `json:"deliveries"` // 1 = relayed only, 2 = second request too (from the store when storable)
+	// RespGzip: the origin's body is gzip-coded and says so (Content-Encoding: gzip), whatever the request asked
+	// for: a coding is part of what the origin sent, and a proxy passes it on as it is
+	RespGzip   bool `json:"resp_gzip,omitempty"`
+	Deliveries int  `json:"deliveries"` // 1 = relayed only, 2 = second request too (from the store when storable)
 	// Via416: the client's GET carries a Range, the origin refuses ranged requests with 416 and gives its
 	// scripted (non-200, hence never stored) answer to the proxy's retry without Range: the client must get
 	// that answer - status, headers and body - not a mixture with the 416
@@ -84,6 +88,14 @@ func runCase(c Case, o *ev.Obs) *ev.Failure {
 	{
 		reqBody := string(origin.Content("req", 7, c.ReqBodyLen))
 		respBody := origin.Content("c08", 1, c.RespBodyLen)
+		if c.RespGzip {
+			var zb bytes.Buffer
+			zw := gzip.NewWriter(&zb)
+			zw.Write(respBody)
+			zw.Close()
+			respBody = zb.Bytes()
+		}
+		fullBody := respBody
 		if c.Method == "HEAD" || noBodyStatus(c.Status) {
 			respBody = nil
 		}
@@ -94,7 +106,10 @@ func runCase(c Case, o *ev.Obs) *ev.Failure {
 			}
 			hs := []origin.HV{{K: "Date", V: "Mon, 02 Jan 2006 15:04:05 GMT"}, {K: "Content-Type", V: "text/x-verif"}}
 			hs = append(hs, c.RespHeaders...)
-			return origin.RawResponse{Status: c.Status, Headers: hs, Body: origin.Content("c08", 1, c.RespBodyLen),
+			if c.RespGzip {
+				hs = append(hs, origin.HV{K: "Content-Encoding", V: "gzip"})
+			}
+			return origin.RawResponse{Status: c.Status, Headers: hs, Body: fullBody,
 				Chunked: c.RespChunked && !noBodyStatus(c.Status), NoBody: r.Method == "HEAD" || noBodyStatus(c.Status), NoCL: noBodyStatus(c.Status)}
 		})
 		defer org.Close()
@@ -266,6 +281,9 @@ func checkResponse(c Case, d int, resp *px.Resp, respBody []byte) *ev.Failure {
 			connVals = append(connVals, h.V)
 		}
 	}
+	if c.RespGzip {
+		sent["Content-Encoding"] = append(sent["Content-Encoding"], "gzip")
+	}
 	nom := nominated(connVals)
 	keys := make([]string, 0, len(sent))
 	for k := range sent {
@@ -286,7 +304,7 @@ func checkResponse(c Case, d int, resp *px.Resp, respBody []byte) *ev.Failure {
 		}
 	}
 	if !c.RespChunked && !noBodyStatus(c.Status) {
-		if cl := resp.Header.Get("Content-Length"); cl != "" && cl != strconv.Itoa(c.RespBodyLen) {
+		if cl := resp.Header.Get("Content-Length"); cl != "" && !c.RespGzip && cl != strconv.Itoa(c.RespBodyLen) {
 			return ev.Failf("relay.resp.content-length", "delivery %d (%s): origin Content-Length %d, client got %q", d, tag, c.RespBodyLen, cl)
 		}
 	}
@@ -403,6 +421,14 @@ var reqHop = [][]px.H{
 	{{K: "Connection", V: "X-One"}, {K: "Connection", V: "X-Two"}, {K: "X-One", V: "1"}, {K: "X-Two", V: "2"}},
 }
 
+var writeGuards = [][]px.H{
+	{{K: "If-Match", V: `"rev-41"`}},
+	{{K: "If-Match", V: `"a", "b"`}},
+	{{K: "If-Unmodified-Since", V: "Mon, 02 Jan 2006 15:04:05 GMT"}},
+	{{K: "If-None-Match", V: "*"}},
+	{{K: "If-Match", V: `"rev-41"`}, {K: "If-Unmodified-Since", V: "Mon, 02 Jan 2006 15:04:05 GMT"}},
+}
+
 var reqRangeGroups = [][]px.H{
 	{{K: "Range", V: "bytes=0-3,10-13"}, {K: "If-Range", V: `"etag-the-client-has"`}},
 	{{K: "Range", V: "BYTES=0-3"}, {K: "If-Range", V: "Mon, 02 Jan 2006 15:04:05 GMT"}},
@@ -443,6 +469,7 @@ func drawCase(t *rapid.T) Case {
 		Deliveries:  rapid.SampledFrom([]int{1, 2, 2}).Draw(t, "deliveries"),
 		Via416:      rapid.IntRange(0, 3).Draw(t, "via416") == 0,
 	}
+	c.RespGzip = rapid.IntRange(0, 7).Draw(t, "resp_gzip") == 0
 	if c.RespBodyLen == 1<<20 && rapid.IntRange(0, 3).Draw(t, "big") != 0 {
 		c.RespBodyLen = 300
 	}
@@ -501,6 +528,13 @@ func drawCase(t *rapid.T) Case {
 			}
 		}
 		c.RespHeaders = hs
+	}
+	// a write guarded against lost updates (If-Match / If-Unmodified-Since) or against overwriting (If-None-Match: *):
+	// for a method the proxy never answers from its store these are the client's end-to-end fields like any
+	// other - without them the origin applies the write unconditionally. (On GET and HEAD the proxy answers for
+	// the origin and replaces the client's conditionals by its own validators: C06's subject, not drawn here.)
+	if (c.Method == "PUT" || c.Method == "PATCH" || c.Method == "DELETE" || c.Method == "POST") && rapid.IntRange(0, 3).Draw(t, "write_guard") == 0 {
+		c.ReqHeaders = append(c.ReqHeaders, rapid.SampledFrom(writeGuards).Draw(t, "write_guard_set")...)
 	}
 	// range requests the proxy does not answer itself (several ranges, another unit, an upper-case unit) and
 	// their If-Range guard are end-to-end fields like any other: both reach the origin, or an origin whose
